@@ -79,6 +79,20 @@ def handle(job):
                     except Exception as e:
                         runs.append([sel, 'exc:' + exc_name(e), []])
                 o['runs'] = runs
+                # the command line: exit status 0 iff no selected check lists anything
+                o['cli'] = []
+                if case.get('cli'):
+                    import subprocess, sys, os, json as _json
+                    for sel in case['cli']:
+                        outp = base_dir() / 'cli-report.json'
+                        if outp.exists():
+                            outp.unlink()
+                        pr = subprocess.run(
+                            [sys.executable, '-m', 'wn', '-d', str(base_dir() / 'clidata'), 'validate',
+                             str(p), '--select', ','.join(sel), '--output-file', str(outp)],
+                            capture_output=True, env=dict(os.environ), timeout=60)
+                        codes = sorted(_json.loads(outp.read_text())) if outp.exists() else []
+                        o['cli'].append([sel, pr.returncode, codes])
                 fresh_db('val')
                 try:
                     wn.add(p, progress_handler=None)
